@@ -4,6 +4,7 @@ from sa import cfg
 from sa.cfg import BranchFacts
 from sa.flow import arg_nodes
 from rules import tasks as T
+from rules import engine as E
 
 UNITS = ["lib/BuildSystem/BuildSystem.cpp", "lib/Basic/FileSystem.cpp"]
 FS = "lib/Basic/FileSystem.cpp"
@@ -200,6 +201,31 @@ def run(ctx):
         oka = oka and cfg.dominated_by(f, rp, lambda p, e: p == cp)[0]
     r.check(oka, "execute|relative-paths-skipped-with-roots", "", "with roots configured a relative path can reach the root test / remove()", f)
 
+    r = rep.rule("R-STALE-CONFIG", "the `roots` and `expectedOutputs` lists of the description reach the command whole: each is stored by a loop over all given values that "
+                                   "appends every one, unconditionally — a dropped root shrinks what may be removed, a dropped expected output gets a live file deleted", floor=2)
+    ca = [g for g in prog.functions.values() if not g.is_lambda and g.cls.endswith(CMD) and g.name.split("::")[-1] == "configureAttribute" and
+          len(g.params) == 3 and "ArrayRef<llvm::StringRef>" in g.db_types[g.params[2]["t"]].replace("StringRef>", "llvm::StringRef>").replace("llvm::llvm::", "llvm::")]
+    if len(ca) != 1:
+        raise AnalysisBroken("StaleFileRemovalCommand::configureAttribute(list) not found (%d candidates)" % len(ca))
+    ca = ca[0]
+    vname = ca.params[2]["n"]
+    for fld in ("roots", "expectedOutputs"):
+        loops = [(lp, en) for lp, en in E.whole_container_loops(ca, vname) if any(
+            c.get("k") == "call" and (c.get("fn") or "").split("::")[-1] in ("emplace_back", "push_back") and "obj" in c and expr_str(core(c.child("obj"))).replace("this->", "") == fld
+            for c in lp.child("body").walk())]
+        ok = len(loops) == 1
+        why = "no loop over `%s` appends to %s" % (vname, fld)
+        if ok:
+            lp, en = loops[0]
+            app = [c for c in lp.child("body").walk() if c.get("k") == "call" and (c.get("fn") or "").split("::")[-1] in ("emplace_back", "push_back") and "obj" in c and
+                   expr_str(core(c.child("obj"))).replace("this->", "") == fld]
+            skips = [x for x in lp.child("body").walk() if x.get("k") in ("continue", "break", "return", "goto")]
+            cond = [a for c in app for a in ca.ancestors(c) if a is not lp and a.get("k") in ("if", "cond", "switch") and any(y is a for y in lp.walk())]
+            from_elem = all(en is not None and en.strip("()*") in expr_str(arg_nodes(c)[0]) for c in app if arg_nodes(c))
+            ok = not skips and not cond and from_elem
+            why = "a configured value can be left out of %s (%s)" % (fld, "the loop skips or stops" if skips else "the append is conditional" if cond else "something else than the element is appended")
+        r.check(ok, "configureAttribute|%s-stored-whole" % fld, "", why, ca)
+
     r = rep.rule("R-STALE-DIFF", "filesToDelete is written only as set_difference(prior stale-file list, expected outputs) over sorted sets", floor=3)
     g = prog.fn(CMD + "::computeFilesToDelete")
     writers = set()
@@ -286,4 +312,9 @@ VARIANTS = [
          expect=("R-STALE-GUARD", "every-accepted-path-removed")),
     dict(name="removal-stops-at-first-failure", file="lib/BuildSystem/BuildSystem.cpp", old="        // Do not warn if the file has already been deleted.\n        if (errno != ENOENT) {",
          new="        // Do not warn if the file has already been deleted.\n        if (errno == EACCES)\n          break;\n        if (errno != ENOENT) {", expect=("R-STALE-GUARD", "every-element-visited")),
+    dict(name="redundant-roots-dropped-with-swapped-prefix-test", file="lib/BuildSystem/BuildSystem.cpp", old="        roots.emplace_back(value.str());",
+         new="        auto root = value.str();\n        if (std::any_of(roots.begin(), roots.end(), [&](const std::string& other) { return pathIsPrefixedByPath(other, root); }))\n          continue;\n        roots.emplace_back(std::move(root));",
+         expect=("R-STALE-CONFIG", "roots-stored-whole")),
+    dict(name="empty-expected-outputs-skipped", file="lib/BuildSystem/BuildSystem.cpp", old="        expectedOutputs.emplace_back(value.str());", new="        if (!value.empty())\n          expectedOutputs.emplace_back(value.str());",
+         expect=("R-STALE-CONFIG", "expectedOutputs-stored-whole")),
 ]
